@@ -179,10 +179,10 @@ PROPS["C04"] = {
 }
 PROPS["C05"] = {
     "engine": "kani-real + mir-bmc", "technique": _M_TECH,
-    "bounds": "engine K: movable rings carrying a destructor-counting payload: scripts of L=4 send / receive+drop / receive+hold, then the ring is dropped with whatever is buffered; every accepted payload destroyed exactly once, CBMC pointer checks (dead object / double free) on; engine M: the last handles to one pooled value dropped / cloned concurrently on 2-3 threads (control block freed once, slot returned once, never touched after the free), see also C14",
+    "bounds": "engine K: movable rings carrying a destructor-counting payload: scripts of L=4 send / receive+drop / receive+hold, then the ring is dropped with whatever is buffered; every accepted payload destroyed exactly once, CBMC pointer checks (dead object / double free) on; engine M: the last handles to one pooled value dropped / cloned concurrently on 2-3 threads (control block freed once, slot returned once, never touched after the free), see also C14; and the zero-copy ring with a payload type that HAS a destructor (mem::needs_drop true; the destructor is modelled as a visible store of a DESTROYED marker into the slot), pool exhausted: a consumer releasing a payload vs. a producer waiting for a slot -- no event may ever read as destroyed",
     "outside": "whole-channel teardown of the Multi ogre_arc channels (Kani exhausts 45 GB on the channel object; their fields drop the allocator before the per-listener queues -- see DESIGN.md findings, decided by reading only); Arc-based Multi channels (std Arc); destructors that touch the channel",
     "assumptions": [_M_NOTE, "setters initialise the slot without reading or dropping its previous bytes; handles do not outlive their channel (both granted by the statement)"],
-    "m": [M("c05_arc_last_two_drops"), M("c05_arc_clone_drop_vs_drop"), M("c05_arc_three_droppers", "thorough"), M("c05_arc_fullsync_last_two_drops", "thorough")],
+    "m": [M("c05_arc_last_two_drops"), M("c05_arc_clone_drop_vs_drop"), M("c05_zc_atomic_destructor_vs_reuse_n2"), M("c05_zc_fullsync_destructor_vs_reuse_n2", "thorough"), M("c05_arc_three_droppers", "thorough"), M("c05_arc_fullsync_last_two_drops", "thorough")],
     "k": [H("c05::c05_ring_atomic_teardown_n2_l4", inst="AtomicMove<Tracked,2>", bounds="L=4 then drop with leftovers", oracle="drop counter per payload == 1 iff accepted", stubs=_C08_STUBS),
           H("c05::c05_ring_full_sync_teardown_n2_l4", inst="FullSyncMove<Tracked,2>", bounds="L=4 then drop with leftovers", stubs=_C08_STUBS)],
     "k_budget": {"quick": {"jobs": 2, "timeout_s": 1200, "mem_gb": 14}},
